@@ -221,6 +221,10 @@ def run_inproc(case):
                     variants.append({"kind": "parquet", "row_group": int(rng.choice([1, 3, 37, n, 10**6])), "const": const, "value": v})
                 else:
                     variants.append({"kind": "workers", "workers": int(rng.choice([2, 3, 8])), "delay": 0.003, "const": const, "value": v})
+        # tunables of the tree under test that are not among the six known constants: one variant each
+        for const in core.extra_chunk_constants():
+            variants.append({"kind": "chunk", "const": const, "value": int(rng.choice([1, 2, 3, 7] + vals))})
+            res.count("variants_for_discovered_constants")
         nt = 0
         keys = []
         for vi, v in enumerate(variants):
